@@ -69,25 +69,34 @@ def run(chk):
 
     # exhaustive + per-edge replay over the whole alphabet; the preludes move the free blocks to
     # where votes / penalties / cancellation / the POW-DPOS switch are live
+    # job = (label, prelude, kinds, last height, items per block, rollbacks, behaviours replayed, sweep span, print 1 edge in N)
     if thorough:
-        jobs = [("basic", "basic", K, 9, 1, 1, 30000), ("basic-pairs", "basic", K, 8, 2, 1, 40000),
-                ("votes", "votes", K, 10, 2, 1, 30000), ("penalty", "penalty", K, 11, 2, 1, 30000),
-                ("cancel", "cancel", K, 12, 2, 1, 30000), ("mode", "mode", K, 19, 1, 1, 20000)]
+        jobs = [("basic", "basic", K, 9, 1, 1, 2500, 6, 20), ("basic-pairs", "basic", K, 8, 2, 1, 3000, 6, 40),
+                ("mode", "mode", K, 19, 1, 1, 1500, 6, 30), ("votes", "votes", K, 10, 1, 1, 2000, 6, 1),
+                ("votes-pairs", "votes", K, 9, 2, 1, 1500, 6, 1), ("penalty", "penalty", K, 11, 1, 1, 2000, 6, 1),
+                ("penalty-pairs", "penalty", K, 10, 2, 1, 700, 6, 1), ("cancel-pairs", "cancel", K, 12, 2, 1, 2500, 6, 4)]
     else:
-        jobs = [("basic", "basic", K, 8, 1, 1, 260, 4), ("votes", "votes", K, 10, 1, 1, 200, 4),
-                ("cancel", "cancel", K, 12, 1, 1, 200, 4)]
-    allbehs = dc.explore_all(chk, jobs)
+        jobs = [("basic", "basic", K, 8, 1, 1, 240, 4, 1), ("votes", "votes", K, 9, 2, 1, 200, 4, 1),
+                ("cancel", "cancel", K, 11, 2, 1, 200, 4, 1)]
+    # simulation (long sequences) runs beside the exhaustive jobs
+    import concurrent.futures
+    num = 60 if thorough else 8
+    vf._copy_spec(os.path.join(vf.SPEC, "Consensus"))
+    with concurrent.futures.ThreadPoolExecutor(max_workers=2) as ex:
+        sims = [ex.submit(dc.simulate, chk, "sim", "basic", K, 30 if thorough else 24, num, vf.seed())]
+        if thorough:   # one transaction per block: cheaper steps, more sequences
+            sims.append(ex.submit(dc.simulate, chk, "sim-single", "basic", K, 30, 250, vf.seed() + 1, 1))
+        allbehs = dc.explore_all(chk, jobs)
+        simres = [f.result() for f in sims]
+    for behs, recs in simres:
+        chk.absorb(recs, "replay simulated sequences")
     selftest(chk, allbehs[0], "basic")
-
-    # simulation: long sequences
-    num = 1500 if thorough else 25
-    behs, recs = dc.simulate(chk, "sim", "basic", K, 30, num, vf.seed())
-    chk.absorb(recs, "replay simulated 30-block sequences")
     chk.assumptions += dc.ASSUMPTIONS + [
         "TLC bounds: preludes of 6-16 forced blocks, then 2 (quick) / 2-3 (thorough) free blocks exhaustively with 1 (quick) or 2 items "
         "per block and one RollbackTo of up to 4 heights; the replay sweeps rollback targets up to 6 heights back at the end of every "
-        "behaviour; simulation: %d sequences of 30 blocks with up to 2 rollbacks" % num,
-        "rollback closures recorded as inexact are not asserted by the model invariant RollbackExact: " + ", ".join(dc.TOLERATE) +
-        ", and producers hit by two status changes in one block; the comparison on the real code still reports them (known findings)",
+        "behaviour; simulation: %d sequences of 24-30 blocks with up to 2 rollbacks (thorough: plus 250 single-transaction-per-block "
+        "sequences)" % num,
+        "blocks that change the status of one producer twice are a named deviation of the spec (not applied; shown on the real code by "
+        "the driver with a fixed follow-up block), as is the repeated expiry of a v2 producer (expProdAgain)",
     ]
     return chk.finish(exhaustive=False)
